@@ -151,6 +151,14 @@ theorem reread_under_anchor (P : Nat) (a : AState) (s : Sess) (r : R P a s) (A o
        ((specRead ⟨a.src, o⟩ k).1, (specRead ⟨a.src, o⟩ k).2.1)) :=
   EaselModel.Buffer.reread_under_anchor P a s r A o k hA hle hlt
 
+/-- What `esl_buffer_Get` exposes in any state reached by a valid history: a non-empty prefix of the rest of the input,
+    at least one guaranteed page of it unless the input ends first (how much more is window policy; that is why
+    `obsOf` compares only status and offset for `Get`). -/
+theorem get_prefix (P : Nat) (a : AState) (s : Sess) (r : R P a s) (hlt : a.cur < a.src.length) :
+    (get s.b).1.st = .ok ∧ (get s.b).1.bytes = a.abs.suffix.take (get s.b).1.n ∧ 0 < (get s.b).1.n ∧
+    min P (a.src.length - a.cur) ≤ (get s.b).1.n :=
+  EaselModel.Buffer.get_prefix r hlt
+
 /-- One step: any of the 14 operations, from any state related to a specification state, within the contract,
     yields the specification's observation and a related state again (anchor bookkeeping included). -/
 theorem step_simulates (P : Nat) (op : Op) : SimStep P op := sim_all P op
